@@ -51,11 +51,15 @@ fn set_preference(_name: String, value: String) -> Result<()> {
     core::mem::forget(_name); core::mem::forget(value);
     Ok(())
 }
-#[derive(Clone, Copy)] pub struct Element<'a> { has_id: bool, p: PhantomData<&'a ()> }
+#[derive(Clone, Copy)] pub struct Element<'a> { has_id: bool, childless: bool, p: PhantomData<&'a ()> }
 #[derive(Clone, Copy)] pub struct ChildOfElement<'a>(Element<'a>);
+/// child list of the math element: one child, or none when no expression has been set (the initial package holds <math></math>)
+pub struct Kids<'a> { e: [ChildOfElement<'a>; 1], n: usize }
+impl<'a> Kids<'a> { fn is_empty(&self) -> bool { self.n == 0 } fn len(&self) -> usize { self.n } }
+impl<'a> core::ops::Index<usize> for Kids<'a> { type Output = ChildOfElement<'a>; fn index(&self, i: usize) -> &ChildOfElement<'a> { assert!(i < self.n, "index out of bounds: the math element has no children (no expression has been set)"); &self.e[i] } }
 impl<'a> Element<'a> {
     fn attribute_value(&self, _name: &str) -> Option<&'a str> { if self.has_id { Some("id-12345") } else { None } }
-    fn children(&self) -> [ChildOfElement<'a>; 1] { [ChildOfElement(*self)] }
+    fn children(&self) -> Kids<'a> { Kids { e: [ChildOfElement(Element { has_id: self.has_id, childless: false, p: PhantomData })], n: if self.childless { 0 } else { 1 } } }
 }
 fn as_element<'a>(c: ChildOfElement<'a>) -> Element<'a> { c.0 }
 fn mml_to_string(_e: &Element) -> String { String::new() }
@@ -78,8 +82,10 @@ BODY
 
 // K-C20-d: whatever the search returns, a successful call leaves the highlight preference as it found it
 HARNESS(braille_position_query_restores_highlight_pref, 12) {
-    let mathml = Element { has_id: sym::bool(), p: PhantomData };
+    let mathml = Element { has_id: sym::bool(), childless: sym::bool(), p: PhantomData };
+    if mathml.childless { sym::assume(!mathml.has_id); }      // before the first set_mathml: <math></math> without id
     let position = sym::usize();
+    cover!(mathml.childless, "no expression set reachable");
     HIGHLIGHT_PREF.with(|p| p.set(0));                 // the caller's setting: "FirstChar"
     let r = node_from_position(mathml, position);      // no panic (position - highlight_start, unwraps)
     let after = HIGHLIGHT_PREF.with(|p| p.get());
@@ -87,7 +93,8 @@ HARNESS(braille_position_query_restores_highlight_pref, 12) {
     cover!(r.is_err(), "failing search reachable");
     match r {
         Ok((id, off)) => { assert!(after == 0, "BrailleNavHighlight is left at EndPoints after a successful query"); assert!(off <= position, "offset larger than the position"); core::mem::forget(id); }
-        Err(_) => { /* observation, not asserted: a failing search (`?`) returns before the preference is restored on the unchanged tree */ }
+        Err(_) => { if mathml.childless { assert!(after == 0, "BrailleNavHighlight was changed although there is no expression to search"); }
+                    /* observation, not asserted: a failing search (`?`) returns before the preference is restored on the unchanged tree */ }
     }
 }
 '''
@@ -99,11 +106,16 @@ def restore_lemma(run):
     run.uses(f)
     body = f.body_without_nested_fns().replace("#[derive(Debug, Display)]", "#[derive(Debug)]")
     crate = _kr.Crate("c20restore", RESTORE_SHIM + RESTORE_HARNESS.replace("BODY", body))
-    run.bound("K-C20-d", "the function's own statements (nested search functions cut out) with an arbitrary search outcome: Ok/Err, any of the 4 SearchStatus values, any start/end, any position; id attribute present or not")
+    run.bound("K-C20-d", "the function's own statements (nested search functions cut out) with an arbitrary search outcome: Ok/Err, any of the 4 SearchStatus values, any start/end, any position; id attribute present or not; math element with one child or none (no expression set)")
     run.assume("get_preference/set_preference reduced to a one-cell store for BrailleNavHighlight (values FirstChar/EndPoints); find_navigation_node replaced by an arbitrary outcome satisfying the contract stated in its source comment; Element reduced to what the statements use",
                "not asserted (observation): when the search itself fails, the unchanged tree returns through `?` with the preference still set to EndPoints")
 
     def api(vals, out):
+        if "no expression has been set" in out:
+            import subprocess
+            # a fresh session: get_navigation_node_from_braille_position before any set_mathml
+            res = mcprobe(["nodeat 3", ("mathml", "<math><mi>z</mi></math>")])
+            return res[0][0] not in ("OK", "ERR"), {"script": "fresh session: get_navigation_node_from_braille_position(3) before any set_mathml", "results": res}
         # role-level recipe: UEB expression long enough for a grade-1 passage; cells 0..2 belong to no node
         res = mcprobe([("pref", "BrailleCode UEB"), ("pref", "BrailleNavHighlight FirstChar"),
                        ("mathml", "<math><mi>x</mi><mo>=</mo><mfrac><mrow><mo>-</mo><mi>b</mi><mo>&#xB1;</mo><msqrt><msup><mi>b</mi><mn>2</mn></msup><mo>-</mo><mn>4</mn><mi>a</mi><mi>c</mi></msqrt></mrow><mrow><mn>2</mn><mi>a</mi></mrow></mfrac></math>"),
@@ -111,8 +123,8 @@ def restore_lemma(run):
         bad = [r for r in res if r[0] != "OK"] or [r for r in (res[5], res[7]) if r[1] != "FirstChar"]
         return bool(bad), {"script": "UEB, BrailleNavHighlight=FirstChar, quadratic formula, get_navigation_node_from_braille_position(0), get_preference", "results": res[3:]}
     return crate, dict(id="K-C20-d.query_restores_highlight_pref", harness="braille_position_query_restores_highlight_pref", api=api,
-                       role=lambda v, o: "pref-not-restored" if "left at EndPoints" in o else "panic-or-offset",
-                       covers=["successful query reachable", "failing search reachable"],
+                       role=lambda v, o: "pref-not-restored" if "left at EndPoints" in o else ("no-expression-set-panic" if "no expression has been set" in o else "panic-or-offset"),
+                       covers=["successful query reachable", "failing search reachable", "no expression set reachable"],
                        claim="Ok exit => BrailleNavHighlight has the value it had before the call; no unwrap / subtraction panic under the search contract")
 
 
